@@ -9,6 +9,12 @@ def step15 (d : Nuts.Drv.Proto.DSt) (j : Json) : Nuts.Drv.Proto.DSt × List Stri
     let src := ((Nuts.Facts.C15.serverTLSConfig.find? (fun x => x.startsWith "ClientAuth=")).getD "ClientAuth=?").drop 11
     let mode := Nuts.C15.ClientAuthMode.ofSource src.toString
     (d, [s!"tlsclient accepted={Nuts.C15.serverAcceptsClient mode (jBool j "presented") (jBool j "chains")}"])
+  | "createtx" =>
+    let parts : List Nuts.C15.KeyRes := (jStrs j "parts").map (fun x => match x with
+      | "ok" => .ok | "deactivated" => .deactivated | "badkey" => .badKey | _ => .notFound)
+    match Nuts.C15.createPalCount (jBool j "nodedid") parts with
+    | .ok k => (d, [s!"createtx ok pal={k}"])
+    | _ => (d, ["createtx err"])
   | "cmauth" =>
     -- the certificate handed to the authenticator is the leaf; `leaf_covers` is x509's verdict on it (data)
     let e : Nuts.C15.AuthEnv := { parseHost := fun _ => some "victim.example.org", verifyHostname := fun _ _ => jBool j "leaf_covers" }
